@@ -151,7 +151,8 @@ class ElectronicControlUnit:
         :param callback:
             Function to call when message is received.
         """
-        for dic in self._subscribers:
+        # iterate over a copy: removing from the list being iterated skips the entry that follows
+        for dic in list(self._subscribers):
             if dic['cb'] == callback:
                 self._subscribers.remove(dic)
 
